@@ -437,6 +437,7 @@ pub fn run_check(prop: &dyn DynProp, o: &RunOpts) -> i32 {
     let mut nt_samples: Vec<Value> = vec![];
     let mut hashes: HashSet<u64> = HashSet::new();
     let mut unknown_total: BTreeMap<String, u64> = BTreeMap::new();
+    let mut known_sig_total: BTreeMap<String, u64> = BTreeMap::new();
     let mut incomplete = false;
     for s in &shards {
         for seg in &s.segments {
@@ -462,6 +463,9 @@ pub fn run_check(prop: &dyn DynProp, o: &RunOpts) -> i32 {
             }
             for (k, n) in v["unknown_sigs"].as_object().cloned().unwrap_or_default() {
                 *unknown_total.entry(k).or_default() += n.as_u64().unwrap_or(0);
+            }
+            for (k, n) in v["known_sigs"].as_object().cloned().unwrap_or_default() {
+                *known_sig_total.entry(k).or_default() += n.as_u64().unwrap_or(0);
             }
             for u in v["unknown"].as_array().cloned().unwrap_or_default() {
                 let sig = u["sig"].as_str().unwrap_or("").to_string();
@@ -532,6 +536,7 @@ pub fn run_check(prop: &dyn DynProp, o: &RunOpts) -> i32 {
             "known_findings_hit".into(),
             json!(known_lines.iter().map(|(k, (n, _))| (k.clone(), *n)).collect::<BTreeMap<_, _>>()),
         );
+        cov.insert("known_finding_signatures".into(), json!(known_sig_total));
         cov.insert("excluded_resource_exhaustion".into(), json!(excluded_resource));
         cov.insert("worker_crashes".into(), json!(crash_events.len()));
         cov.insert("unknown_failure_signatures".into(), json!(unknown_total));
